@@ -199,7 +199,7 @@ def build(U, nodes=True):
     U.use('vstd::std_specs::iter::*')
     U.use('core::ops::Range')
     U.ghost(P.CORE, 'core vocabulary')
-    U.ghost(P.input_trait_decl(['span', 'at_start', 'at_end', 'match_string']), 'trait Input (contracts only)')
+    U.ghost(P.input_trait_decl(P.INPUT_BASIC), 'trait Input (contracts only)')
     U.ghost(P.TRAITS, 'trait contracts')
     U.ghost(IDX_GHOST.split('// std: Option::map_or')[0], 'spec_norm / spec_constrain (C06, from unit idx)')
     U.ghost(GHOST.replace('@@OUTLINED@@', OUTLINED_STUB if nodes else OUTLINED_VERIFIED), 'denotations of the slice nodes, contracts-only pieces, Stack model continued')
